@@ -180,7 +180,9 @@ Fin == /\ Cur = "FIN"
        /\ pc' = pc + 1 /\ UNCHANGED <<HKeep, AKeep>>
 Init == /\ pc = 1 /\ res = <<>> /\ hs = H512 /\ st = H512 /\ ws = <<>> /\ t = -1 /\ blk = 0
         /\ pt = IdPt /\ base = <<>> /\ i = -1 /\ acc = <<>> /\ sub = "idle"
-Next == StartBlock \/ ShaStep \/ EndBlock \/ DecStart \/ DecStep \/ DecEnd \/ KStore \/ MulStart \/ MulStep \/ MulEnd \/ Fin
+\* (wrong lengths / an over-long context are decided by the ASSUME below without running the program: its steps would index past the short signature)
+Next == (Len(JobIn.pk) = 32 /\ Len(JobIn.sig) = 64 /\ Len(JobIn.ctx) <= 255 /\ (JobIn.variant = "pure" => Len(JobIn.ctx) = 0))
+        /\ (StartBlock \/ ShaStep \/ EndBlock \/ DecStart \/ DecStep \/ DecEnd \/ KStore \/ MulStart \/ MulStep \/ MulEnd \/ Fin)
 Spec == Init /\ [][Next]_vars
 ASSUME TLCSet(1, [done |-> FALSE, consistent |-> FALSE, verdict |-> "none", facts |-> <<>>])
 \* wrong lengths or an over-long context are decided without running anything
